@@ -256,6 +256,27 @@ def rewrite_history(ctx, case, want, cb):
         if isinstance(w, int) and cs != {w}:
             ctx.violation("count-differs-from-chop:second-write-after-vertices-moved", f"lattice edge {pr}: chop count {w}, written {sorted(cs)}")
             return
+    # the counts are those of a mesh built on the stretched geometry right away (size-based chops see the new lengths)
+    import copy
+
+    fcase = copy.deepcopy(vcase)
+    for blk in fcase["blocks"]:
+        for p in blk["pts"]:
+            p[rw["axis"]] *= rw["factor"]
+    fmesh, _ = lattice.build_mesh(fcase, cb)
+    got, err = util.write_outcome(fmesh, path, nblocks=len(fcase["blocks"]))
+    if got != "success":
+        util.rm(path)
+        return
+    fparsed = foamdict.parse_blockmesh(util.read_text(path))
+    util.rm(path)
+    ctx.count("judged:second-write-vs-fresh-mesh-of-the-moved-geometry")
+    for bi, (b1, b2) in enumerate(zip(parsed["blocks"], fparsed["blocks"])):
+        if list(b1["counts"]) != list(b2["counts"]):
+            ctx.violation("stale-counts:second-write-after-vertices-moved",
+                          f"block {bi}: the second write (after stretching axis {rw['axis']} by {rw['factor']}) has counts {b1['counts']}, "
+                          f"a fresh mesh of the stretched geometry {b2['counts']}; chops {vcase['blocks'][bi]['chops']}")
+            return
 
 
 def _first_diff(a, b):
